@@ -3,6 +3,7 @@ package main
 // Engine F (DESIGN §3.F): sibling and writer/reader agreement (AST + types).
 
 import (
+	"golang.org/x/tools/go/ssa"
 	"fmt"
 	"go/ast"
 	"go/constant"
@@ -497,57 +498,109 @@ func ruleT4(c *Ctx) {
 	var filterFd *ast.FuncDecl
 	var cases []caseInfo
 	var defaultTrue, hasDefault bool
+	sinfo := spk.TypesInfo
+	// codesOf: the string constants a condition compares one string expression with (x == "A" || x == "B")
+	var codesOf func(e ast.Expr) []string
+	codesOf = func(e ast.Expr) []string {
+		switch x := ast.Unparen(e).(type) {
+		case *ast.BinaryExpr:
+			switch x.Op {
+			case token.LOR:
+				l, r := codesOf(x.X), codesOf(x.Y)
+				if l == nil || r == nil {
+					return nil
+				}
+				return append(l, r...)
+			case token.EQL:
+				for _, side := range []ast.Expr{x.X, x.Y} {
+					if s, ok := stringConst(sinfo, side); ok {
+						return []string{s}
+					}
+				}
+			}
+		}
+		return nil
+	}
+	singleReturn := func(body []ast.Stmt) ast.Expr {
+		if len(body) == 1 {
+			if r, ok := body[0].(*ast.ReturnStmt); ok && len(r.Results) == 1 {
+				return r.Results[0]
+			}
+		}
+		return nil
+	}
+	isTrue := func(e ast.Expr) bool {
+		tv, ok := sinfo.Types[e]
+		return ok && tv.Value != nil && tv.Value.Kind() == constant.Bool && constant.BoolVal(tv.Value)
+	}
 	for _, f := range spk.Syntax {
 		for _, d := range f.Decls {
 			fd, ok := d.(*ast.FuncDecl)
-			if !ok || fd.Body == nil {
+			if !ok || fd.Body == nil || filterFd != nil || fd.Type.Results == nil || len(fd.Type.Results.List) != 1 || types.TypeString(sinfo.TypeOf(fd.Type.Results.List[0].Type), nil) != "bool" {
 				continue
 			}
+			var cs []caseInfo
+			hit := 0
+			dT, hD := false, false
+			add := func(codes []string, ret ast.Expr, pos token.Pos) {
+				ci := caseInfo{codes: codes, pos: pos}
+				for _, s := range codes {
+					if _, w := written[s]; w {
+						hit++
+					}
+				}
+				if ret != nil {
+					if se, ok := ast.Unparen(ret).(*ast.SelectorExpr); ok {
+						ci.field = se.Sel.Name
+					}
+				}
+				cs = append(cs, ci)
+			}
 			ast.Inspect(fd.Body, func(n ast.Node) bool {
-				sw, ok := n.(*ast.SwitchStmt)
-				if !ok || sw.Tag == nil || filterFd != nil {
-					return true
-				}
-				var cs []caseInfo
-				hit := 0
-				dT, hD := false, false
-				for _, st := range sw.Body.List {
-					cc := st.(*ast.CaseClause)
-					ci := caseInfo{pos: cc.Pos()}
-					for _, e := range cc.List {
-						if s, ok := stringConst(spk.TypesInfo, e); ok {
-							ci.codes = append(ci.codes, s)
-							if _, w := written[s]; w {
-								hit++
+				switch sw := n.(type) {
+				case *ast.SwitchStmt:
+					for _, st := range sw.Body.List {
+						cc := st.(*ast.CaseClause)
+						if cc.List == nil {
+							if r := singleReturn(cc.Body); r != nil {
+								hD, dT = true, isTrue(r)
 							}
+							continue
 						}
-					}
-					if len(cc.Body) == 1 {
-						if r, ok := cc.Body[0].(*ast.ReturnStmt); ok && len(r.Results) == 1 {
-							if se, ok := ast.Unparen(r.Results[0]).(*ast.SelectorExpr); ok {
-								ci.field = se.Sel.Name
-							}
-							if cc.List == nil {
-								hD = true
-								if tv, ok := spk.TypesInfo.Types[r.Results[0]]; ok && tv.Value != nil && tv.Value.Kind() == constant.Bool && constant.BoolVal(tv.Value) {
-									dT = true
+						var codes []string
+						for _, e := range cc.List {
+							if sw.Tag != nil {
+								if s, ok := stringConst(sinfo, e); ok {
+									codes = append(codes, s)
 								}
+							} else {
+								codes = append(codes, codesOf(e)...)
 							}
 						}
+						if len(codes) > 0 {
+							add(codes, singleReturn(cc.Body), cc.Pos())
+						}
 					}
-					if cc.List != nil {
-						cs = append(cs, ci)
+				case *ast.IfStmt:
+					if codes := codesOf(sw.Cond); len(codes) > 0 {
+						add(codes, singleReturn(sw.Body.List), sw.Pos())
 					}
-				}
-				if hit >= 2 {
-					filterFd, cases, defaultTrue, hasDefault = fd, cs, dT, hD
 				}
 				return true
 			})
+			// an if chain ends in a plain return: that is the default
+			if !hD && len(fd.Body.List) > 0 {
+				if r, ok := fd.Body.List[len(fd.Body.List)-1].(*ast.ReturnStmt); ok && len(r.Results) == 1 {
+					hD, dT = true, isTrue(r.Results[0])
+				}
+			}
+			if hit >= 2 {
+				filterFd, cases, defaultTrue, hasDefault = fd, cs, dT, hD
+			}
 		}
 	}
 	if filterFd == nil {
-		c.undecided("T4", "server", "diagnostic filter", token.NoPos, "no switch over diagnostic codes found in package server")
+		c.undecided("T4", "server", "diagnostic filter", token.NoPos, "no function deciding by diagnostic code (switch or if chain over the codes the analyzer writes) found in package server")
 		return
 	}
 	fname := c.P.declName(filterFd)
@@ -590,32 +643,63 @@ func ruleT4(c *Ctx) {
 			c.finding("T4", fname, "code "+code, filterFd.Pos(), "code "+code+" written by "+prod+" is not gated by any setting")
 		}
 	}
-	// the filter is consulted for every analyzer diagnostic that is published
+	// the filter is consulted for every analyzer diagnostic that is published: every protocol.Diagnostic whose
+	// code comes from an analyzer diagnostic is built under the control of a call of the filter on that code
+	// (control dependence on SSA: `if !f(..) { continue }` and `if f(..) { build }` are the same thing)
 	nUse := 0
-	for _, f := range spk.Syntax {
-		for _, d := range f.Decls {
-			fd, ok := d.(*ast.FuncDecl)
-			if !ok || fd.Body == nil {
-				continue
-			}
-			ast.Inspect(fd.Body, func(n ast.Node) bool {
-				rs, ok := n.(*ast.RangeStmt)
+	filterObj := spk.TypesInfo.Defs[filterFd.Name]
+	for _, f := range c.P.ModuleFuncs() {
+		if f.Pkg != c.P.SSAPkg("internal/server") {
+			continue
+		}
+		for _, b := range f.Blocks {
+			for _, ins := range b.Instrs {
+				st, ok := ins.(*ssa.Store)
 				if !ok {
-					return true
+					continue
 				}
-				t := spk.TypesInfo.TypeOf(rs.X)
-				if t == nil || !strings.HasSuffix(types.TypeString(t, nil), "[]"+modPath+"/internal/analyzer.Diagnostic") {
-					return true
+				fa, ok := st.Addr.(*ssa.FieldAddr)
+				if !ok || !typeHasSuffix(fa.X.Type(), "*go.lsp.dev/protocol.Diagnostic") {
+					continue
+				}
+				fst := fa.X.Type().Underlying().(*types.Pointer).Elem().Underlying().(*types.Struct)
+				if fst.Field(fa.Field).Name() != "Message" {
+					continue
+				}
+				// message taken from an analyzer diagnostic?
+				var src ssa.Value
+				for v := range backSlice(st.Val) {
+					switch x := v.(type) {
+					case *ssa.Field:
+						if typeHasSuffix(x.X.Type(), "internal/analyzer.Diagnostic") {
+							src = x.X
+						}
+					case *ssa.FieldAddr:
+						if typeHasSuffix(x.X.Type(), "internal/analyzer.Diagnostic") {
+							src = x.X
+						}
+					}
+				}
+				if src == nil {
+					continue
 				}
 				nUse++
-				// first statement: if !filter(diag.Code, ...) { continue }
 				okGuard := false
-				if len(rs.Body.List) > 0 {
-					if ifs, ok := rs.Body.List[0].(*ast.IfStmt); ok && len(ifs.Body.List) == 1 {
-						if br, ok := ifs.Body.List[0].(*ast.BranchStmt); ok && br.Tok == token.CONTINUE {
-							if u, ok := ast.Unparen(ifs.Cond).(*ast.UnaryExpr); ok && u.Op == token.NOT {
-								if call, ok := ast.Unparen(u.X).(*ast.CallExpr); ok {
-									if o := calleeOf(spk.TypesInfo, call); o != nil && o.Name() == filterFd.Name.Name {
+				for _, cc := range controlCondsPol(b) {
+					call, ok := cc.Cond.(*ssa.Call)
+					if !ok || !cc.Taken {
+						continue
+					}
+					if cal := call.Common().StaticCallee(); cal != nil && cal.Object() == filterObj {
+						for _, a := range call.Common().Args {
+							for v := range backSlice(a) {
+								switch x := v.(type) {
+								case *ssa.Field:
+									if x.X == src {
+										okGuard = true
+									}
+								case *ssa.FieldAddr:
+									if x.X == src {
 										okGuard = true
 									}
 								}
@@ -623,14 +707,13 @@ func ruleT4(c *Ctx) {
 						}
 					}
 				}
-				c.check(okGuard, "T4", c.P.declName(fd), "filter applied to analyzer diagnostics", rs.Pos(),
+				c.check(okGuard, "T4", funcName(f), "filter applied to analyzer diagnostics", st.Pos(),
 					"every analyzer diagnostic passes the settings filter before it is published",
 					"analyzer diagnostics are converted for publishing without passing the settings filter first")
-				return true
-			})
+			}
 		}
 	}
-	c.census("T4", "loops publishing analyzer diagnostics", nUse, 1)
+	c.census("T4", "conversions of analyzer diagnostics for publishing", nUse, 1)
 }
 
 // ---------- T9: occurrence coverage of commodity sites ----------
